@@ -61,7 +61,7 @@ CLAIMED = {
  "C17": ("fault_enumeration", SIM + "framing-field fault enumeration at every chunk (control byte, property byte, declared sizes, truncation); oracle = lenient reference LZMA2 decoder that knows exactly the listed rules",
          "Partly a simulation target (corruption/truncation). Per seeded chunk sequence every framing field takes every boundary-violating value at every chunk (thorough: all values); what the lenient reference must reject, lzma-rs must reject.",
          TB, "DESIGN.md section 4, C17"),
- "C18": ("fault_enumeration", SIM + "stored-field substitution enumerated per file: every unsupported check ID, filter ID/chain, reserved bit, second stream, stream padding, with all CRCs consistent; oracle = must be Err",
+ "C18": ("fault_enumeration", SIM + "stored-field substitution enumerated per file: every unsupported check ID, filter ID/chain, reserved bit, second stream, stream padding, with all CRCs consistent, plus a forged twin header (unsupported header whose free bits are solved so that its CRC32 equals the previous block header's); oracle = must be Err",
          "Partly a simulation target (stored-field substitution). Every unsupported feature is substituted into every seeded valid file with all CRCs, check sizes and SHA-256 values consistent; only Ok is a violation.",
          TB, "DESIGN.md section 4, C18"),
 }
